@@ -31,7 +31,8 @@ EXPLANATION = (
 ASSUMPTIONS = ["BundleBuilder::set(name, v) stores v under `name`; Value builders copy what they are given", "cycle_offset(t) = (t - MIN_ST)/MIN_TD"]
 DECIDED = ["a kind-consistent ops triples", "b writer/reader field agreement and content", "c apply order", "d capture skips exactly the unrepresentable",
            "e dense record alignment", "f replay cursor", "g sparse record",
-           'm delta_has_effect_tsd answers no-effect only after the modified map was tested']
+           'm delta_has_effect_tsd answers no-effect only after the modified map was tested',
+           'n recorder start erases its buffer in every layout (= C07.f)']
 NOT_DECIDED = ["apply(capture(x)) = x for every shape/history", "Value equality", "persistence buffer formats"]
 
 # confirmed exceptions of the shape-agreement rule (slot -> allowed function, reason)
